@@ -12,6 +12,9 @@ import (
 	"sync"
 	"testing"
 
+	"github.com/cloudwego/eino/callbacks"
+	"github.com/cloudwego/eino/compose"
+	"github.com/cloudwego/eino/flow/agent"
 	"github.com/cloudwego/eino/flow/agent/react"
 	"github.com/cloudwego/eino/internal/vkit"
 	rapid "github.com/cloudwego/eino/internal/vrapid"
@@ -22,10 +25,15 @@ type CaseC09R struct {
 	C       CaseC18 `json:"c"`
 	Workers int     `json:"workers"`
 	Calls   int     `json:"calls"`
+	// SharedOpts: every call passes one shared agent option (compose options taken from a slice with spare
+	// capacity, as a caller who builds the list once would have) followed by a per-call tool option carrying the
+	// call's tag; every tool invocation must see exactly its own call's tag
+	SharedOpts bool `json:"sharedopts,omitempty"`
 }
 
 func genC09R(t *rapid.T) CaseC09R {
 	c := CaseC09R{C: genC18(t), Workers: rapid.IntRange(2, 8).Draw(t, "workers"), Calls: rapid.IntRange(1, 3).Draw(t, "calls")}
+	c.SharedOpts = rapid.Bool().Draw(t, "sharedOpts")
 	if rapid.IntRange(0, 1).Draw(t, "forceDirect") == 0 && len(c.C.Direct) == 0 {
 		c.C.Direct = []string{c.C.Tools[0]}
 	}
@@ -64,6 +72,12 @@ func checkC09R(cc CaseC09R) (*vkit.Failure, vkit.Meta) {
 		if err != nil {
 			return vkit.Failf("harness", "NewAgent: %v", err)
 		}
+		var shared []agent.AgentOption
+		if cc.SharedOpts {
+			base := make([]compose.Option, 0, 8)
+			base = append(base, compose.WithCallbacks(callbacks.NewHandlerBuilder().Build()))
+			shared = append(shared, agent.WithComposeOptions(base...))
+		}
 		n := cc.Workers * cc.Calls
 		type res struct {
 			got  string
@@ -88,6 +102,10 @@ func checkC09R(cc CaseC09R) (*vkit.Failure, vkit.Meta) {
 					for _, s := range c.Input {
 						in = append(in, schema.UserMessage(tag+s))
 					}
+					var aopts []agent.AgentOption
+					if cc.SharedOpts {
+						aopts = append(append(aopts, shared...), react.WithToolOptions(tagToolOpt(tag)))
+					}
 					mode := []string{"generate", "stream"}[i%2]
 					var got *schema.Message
 					var rerr error
@@ -98,10 +116,10 @@ func checkC09R(cc CaseC09R) (*vkit.Failure, vkit.Meta) {
 							}
 						}()
 						if mode == "generate" {
-							got, rerr = ag.Generate(rctx, in)
+							got, rerr = ag.Generate(rctx, in, aopts...)
 							return
 						}
-						sr, err := ag.Stream(rctx, in)
+						sr, err := ag.Stream(rctx, in, aopts...)
 						if err != nil {
 							rerr = err
 							return
@@ -154,7 +172,15 @@ func checkC09R(cc CaseC09R) (*vkit.Failure, vkit.Meta) {
 			rs.run.mu.Lock()
 			gotIn := append([]string(nil), rs.run.modelIn...)
 			gotTools := append([]string(nil), rs.run.toolCalls...)
+			gotOpts := append([]string(nil), rs.run.toolOpts...)
 			rs.run.mu.Unlock()
+			if cc.SharedOpts {
+				for _, o := range gotOpts {
+					if o != tag {
+						return &vkit.Failure{Kind: "concurrent-options", Sig: "concurrent-options", Msg: fmt.Sprintf("call %d passed the tool option tagged %q after a shared agent option; one of its tool invocations received the tags %q", i, tag, o)}
+					}
+				}
+			}
 			if fmt.Sprint(gotIn) != fmt.Sprint(ref.modelIn) {
 				return &vkit.Failure{Kind: "concurrent-history", Sig: "concurrent-history", Msg: fmt.Sprintf("call %d: model inputs %q, reference %q", i, gotIn, ref.modelIn)}
 			}
@@ -171,6 +197,9 @@ func checkC09R(cc CaseC09R) (*vkit.Failure, vkit.Meta) {
 		m.Labels = append(m.Labels, fmt.Sprintf("workers:%d", cc.Workers))
 		if len(c.Direct) > 0 {
 			m.Labels = append(m.Labels, "return-directly-configured")
+		}
+		if cc.SharedOpts {
+			m.Labels = append(m.Labels, "shared-agent-option+per-call-tool-option")
 		}
 		m.NonTrivial = n >= 3 && len(c.Script) >= 1
 		return nil
